@@ -9,8 +9,8 @@ CONSTANTS
   SendList = "current"
   OnTimeout = "stuck"
   OkayRequired = 3
-  Budgets = {0, 2, 6}
-  MaxStop = 2
+  Budgets = {0, 6}
+  MaxStop = 1
   MaxJoin = 2
   UOrder <- MCOrder
 VIEW View
